@@ -253,7 +253,7 @@ def earlier_call(P, r):
             KEPT_ALIVE.append(g)               # suspended past a line break / inside a bracket, and still alive
             del KEPT_ALIVE[:-4]
         elif k == 9:
-            P.eval('sum = 1 + 2\nlen = 5\nnope = 1\nx = 7\nstr')       # no names mapping at all
+            P.eval('sum = 1 + 2\nlen = 5\nnope = 1\nx = 7\nrand = 7\nshuffle = 7\nmap = 2\nround = 3\nmatch = 4\npush = 5\nsorted = 6\nstr')       # no names mapping at all
         elif k == 10:
             import types
             P.eval('x = 1\nlen = 3\nmax = 4', types.MappingProxyType({'y': 1}))   # a read-only names mapping
